@@ -130,8 +130,10 @@ impl<TR: ToTokens> FnDelegationCodegen<'_, TR> {
             });
 
         let opt_dot_await = trait_fn.opt_dot_await(span);
+        let attrs = &trait_fn.attrs;
 
         quote_spanned! { span=>
+            #(#attrs)*
             #trait_fn_sig {
                 #opt_self_scoping #fn_ident(#opt_self_comma #(#arguments),*) #opt_dot_await
             }
